@@ -162,7 +162,7 @@ def pipeline_cases(draw):
         i = draw(st.integers(0, len(steps) - 1))
         if "." not in steps[i][0]:
             steps[i][0] = steps[i][0] + ".only"
-    ops = ["check"] + draw(st.lists(st.sampled_from(["check", "run", "run", "check_perm"]), min_size=1, max_size=4))
+    ops = ["check"] + draw(st.lists(st.sampled_from(["check", "run", "run", "check_perm", "check_sub"]), min_size=1, max_size=4))
     perm_seed = draw(st.integers(0, 1000))
     edit = draw(st.sampled_from(["swap", "delete", "duplicate", "insert"]))
     return {"pair": pair, "pipeline": steps, "disp": [draw(st.integers(-3, 0)), draw(st.integers(0, 3))], "ops": ops,
@@ -227,18 +227,30 @@ def pipeline_body(ctx: Ctx, p: dict) -> None:
     first_checked = first_margins = first_trace = first_left = first_right = None
     n_ok = 0
     checked = None
+    sub_used = False
     for op in p["ops"]:
-        if op == "check_perm":
-            # the same steps in another legal order (each phase permuted within itself), on the machine that has history
+        if op in ("check_perm", "check_sub"):
             i_d = kinds.index("disparity")
             rot = 1 + p.get("perm_seed", 0) % 3
-            cvp, post = steps[1:i_d], steps[i_d + 1:]
-            cvp = cvp[rot % len(cvp):] + cvp[:rot % len(cvp)] if cvp else cvp
-            post = post[rot % len(post):] + post[:rot % len(post)] if post else post
-            steps = [steps[0]] + cvp + [steps[i_d]] + post
+            if op == "check_perm":
+                # the same steps in another legal order (each phase permuted within itself), on the machine that has history
+                cvp, post = steps[1:i_d], steps[i_d + 1:]
+                cvp = cvp[rot % len(cvp):] + cvp[:rot % len(cvp)] if cvp else cvp
+                post = post[rot % len(post):] + post[:rot % len(post)] if post else post
+                steps = [steps[0]] + cvp + [steps[i_d]] + post
+                what = "re-ordered on a used machine"
+            else:
+                # a shorter pipeline on the machine that has history: one or two optional steps dropped
+                drop = [i for i, k in enumerate(kinds) if k in ("aggregation", "filter", "refinement", "validation")]
+                drop = [drop[(p.get("perm_seed", 0) + j * 7) % len(drop)] for j in range(min(len(drop), 1 + rot % 2))] if drop else []
+                steps = [st_ for i, st_ in enumerate(steps) if i not in drop]
+                what = f"{len(set(drop))} step(s) dropped on a used machine"
+                if drop:
+                    sub_used = True
             names = [n for n, _ in steps]
             kinds = [dfa.kind_of(n) for n in names]
-            tag = f"names={names} ns={ns} (re-ordered on a used machine)"
+            has_val = "validation" in kinds
+            tag = f"names={names} ns={ns} ({what})"
             fresh = drive.check_pipeline(PandoraMachine(), gen.pipe_dict(steps), l, r)
             first_checked = first_margins = first_trace = first_left = first_right = None
             op = "check"
@@ -349,6 +361,8 @@ def pipeline_body(ctx: Ctx, p: dict) -> None:
         classes.append("run-twice")
     if "check_perm" in p["ops"]:
         classes.append("re-ordered-on-used-machine")
+    if sub_used:
+        classes.append("shorter-pipeline-on-used-machine")
     ctx.case(p, nontrivial=bool(len(names) >= 3 and n_ok >= 2), classes=classes)
 
 
